@@ -27,14 +27,14 @@ type isoReq struct {
 }
 
 type isoResp struct {
-	HasErr      bool   `json:"has_err"`
-	ErrText     string `json:"err,omitempty"`
-	TemplateNil bool   `json:"tnil"`
-	RootNil     bool   `json:"rootnil"`
-	StringPanic string `json:"string_panic,omitempty"`
-	CallerPanic string `json:"caller_panic,omitempty"`
-	LexerLeak   bool   `json:"lexer_leak"`
-	LeakStacks  string `json:"leak_stacks,omitempty"`
+	HasErr      bool      `json:"has_err"`
+	ErrText     string    `json:"err,omitempty"`
+	TemplateNil bool      `json:"tnil"`
+	RootNil     bool      `json:"rootnil"`
+	StringPanic string    `json:"string_panic,omitempty"`
+	CallerPanic string    `json:"caller_panic,omitempty"`
+	LexerLeak   bool      `json:"lexer_leak"`
+	LeakStacks  string    `json:"leak_stacks,omitempty"`
 	Walk        *walkResp `json:"walk,omitempty"`
 }
 
